@@ -24,7 +24,8 @@ import (
 type cfgT struct {
 	Parallel, Kv, Batch, Vocab, Eos, Pad, MaskPad int
 	Multi, Shift, Partial, Resume, NoCache, Watch bool
-	Window                                        int // 0: plain causal; >0: sliding window cache
+	Window                                        int  // 0: plain causal; >0: sliding window cache
+	Encoder                                       bool // WrapperCache(EncoderCache, Causal), as mllama
 }
 
 func getCfg(c map[string]any) cfgT {
@@ -43,7 +44,7 @@ func getCfg(c map[string]any) cfgT {
 	}
 	return cfgT{Parallel: i("parallel", 1), Kv: i("kv", 8), Batch: i("batch", 4), Vocab: i("vocab", 8), Eos: i("eos", -1),
 		Pad: i("pad", 1), MaskPad: i("maskpad", 1), Multi: b("multi", false), Shift: b("shift", true), Partial: b("partial", true), Resume: b("resume", true),
-		NoCache: b("nocache", false), Window: i("window", 0), Watch: b("watch", false)}
+		NoCache: b("nocache", false), Window: i("window", 0), Watch: b("watch", false), Encoder: b("encoder", false)}
 }
 
 type world struct {
@@ -52,6 +53,8 @@ type world struct {
 	m       *scripted
 	causal  *kvcache.Causal
 	front   *limitedCache
+	enc     *kvcache.EncoderCache
+	wrapper *kvcache.WrapperCache
 	reqs    map[int]*ollamarunner.Sequence // request index -> sequence (live or finished, until closed seen)
 	reqSlot map[int]int                    // request index -> slot it was given
 }
@@ -70,14 +73,22 @@ func newWorld(cfg cfgT) (*world, error) {
 		} else {
 			w.causal = kvcache.NewCausalCache(sf)
 		}
+		var inner kvcache.Cache = w.causal
+		if cfg.Encoder {
+			// as model/models/mllama builds it
+			w.enc = kvcache.NewEncoderCache()
+			w.enc.SetConfig(ml.CacheConfig{})
+			w.wrapper = kvcache.NewWrapperCache(w.enc, w.causal)
+			inner = w.wrapper
+		}
 		if cfg.Partial && cfg.Resume && !cfg.Watch {
-			cache = w.causal
+			cache = inner
 		} else {
-			w.front = &limitedCache{Cache: w.causal, noPartial: !cfg.Partial, noResume: !cfg.Resume, watch: cfg.Watch}
+			w.front = &limitedCache{Cache: inner, noPartial: !cfg.Partial, noResume: !cfg.Resume, watch: cfg.Watch}
 			cache = w.front
 		}
 	}
-	w.m = &scripted{Base: model.VerifNewBase(be, cache), vocab: int32(cfg.Vocab), eos: int32(cfg.Eos)}
+	w.m = &scripted{Base: model.VerifNewBase(be, cache), vocab: int32(cfg.Vocab), eos: int32(cfg.Eos), wrapper: w.wrapper, enc: w.enc}
 	var err error
 	w.srv, err = ollamarunner.VerifNewServer(w.m, cfg.Parallel, cfg.Batch, cfg.Kv, cfg.Multi)
 	return w, err
@@ -167,6 +178,14 @@ func (w *world) observe(e map[string]any) {
 		}
 	}
 	e["resp"] = resp
+	if w.enc != nil {
+		c, p := w.enc.VerifEnc07()
+		if c {
+			e["enc"] = []int{int(p)}
+		} else {
+			e["enc"] = []int{}
+		}
+	}
 	e["defrag"] = defragCount
 	defragCount = 0
 	e["fwd"] = w.m.trace
